@@ -9,6 +9,7 @@ pub mod c09;
 pub mod c10;
 pub mod c11;
 pub mod c12;
+pub mod c13;
 pub mod c14;
 pub mod c15;
 pub mod c16;
@@ -31,6 +32,7 @@ pub fn run(id: &str, tier: Tier) -> Option<i32> {
         "C10" => c10::run(tier),
         "C11" => c11::run(tier),
         "C12" => c12::run(tier),
+        "C13" => c13::run(tier),
         "C14" => c14::run(tier),
         "C15" => c15::run(tier),
         "C16" => c16::run(tier),
@@ -88,6 +90,8 @@ pub fn replay(property: &str, part: &str, case: &serde_json::Value) -> Option<Re
         ("C05", "networks-realtime") => replay_part(&c05::NetworksRealTime, case, 2),
         ("C05", "networks") => replay_part(&c05::Networks, case, 1),
         ("C09", "histories") => replay_part(&c09::Histories, case, 1),
+        ("C13", "backoff-arithmetic") => replay_part(&c13::Backoff, case, 1),
+        ("C13", "schedules") => replay_part(&c13::Schedules, case, 1),
         _ => return None,
     })
 }
